@@ -85,7 +85,7 @@ def transition_step(n, e0, e1, e2, s0, s1, s2, who, target, want=""):
     return ""
 
 
-def request_history(n, e0, e1, e2, w0, t0, w1, t1, w2, t2, w3=0, t3=0, depth=3, want=""):
+def request_history(n, e0, e1, e2, w0, t0, w1, t1, w2, t2, w3=0, t3=0, depth=3, grow_at=-1, want=""):
     """A sequence of `depth` requests from the initial state."""
     bits = [e0, e1, e2][:n_edge_bits(n)]
     p, ops = mk_pipeline("p", 3, n, bits, [[seg_ticks(1)] for _ in range(n)])
@@ -93,9 +93,27 @@ def request_history(n, e0, e1, e2, w0, t0, w1, t1, w2, t2, w3=0, t3=0, depth=3, 
     model = [0] * n
     reqs = [(w0, t0), (w1, t1), (w2, t2), (w3, t3)][:depth]
     n_acc = 0
-    for (who, tgt) in reqs:
+    for step, (who, tgt) in enumerate(reqs):
         if who >= n:
             return ""
+        if step == grow_at:
+            # a late stage is appended to the pipeline (public API) after its operators have made progress: whatever the
+            # library does with the new operator, the operators that exist keep their states - completion is final
+            try:
+                p.new_operator([ops[n - 1]])
+            except Exception as e:
+                return f"C02:new_operator_raised:{exc_name(e)}"
+            rs = p.runtime_status()
+            for j in range(n):
+                try:
+                    stj = ops[j].state()
+                except Exception as e:
+                    return f"C02:state_of_existing_operator_lost_after_new_operator:{exc_name(e)}"
+                if stj != ST[model[j]]:
+                    return "C02:existing_operator_changed_state_when_an_operator_was_added"
+            for st_ in ST:
+                if st_ != S.PENDING and rs.state_counts[st_] != sum(1 for j in range(n) if ST[model[j]] == st_):
+                    return "C02:state_counts_changed_when_an_operator_was_added"
         cur = model[who]
         allowed = (cur, tgt) in DOC
         if allowed and tgt == 2:
@@ -120,8 +138,10 @@ def request_history(n, e0, e1, e2, w0, t0, w1, t1, w2, t2, w3=0, t3=0, depth=3, 
         for j in range(n):
             if ops[j].state() != ST[model[j]]:
                 return "C02:state_differs_from_model"
-        if dict(rs.state_counts) != _hist(rs):
+        if grow_at < 0 and dict(rs.state_counts) != _hist(rs):
             return "C02:state_counts_not_histogram"
+    if want == "grown":
+        return "REACHED" if 0 < grow_at < depth and n_acc >= 2 and any(m == 4 for m in model) else ""
     if want == "deep":
         return "REACHED" if n_acc == depth else ""
     path_done()
